@@ -263,9 +263,11 @@ static J gen_c13 (uint64_t seed, uint64_t idx)
 		if (g.rng.chance (0.05)) { J s = mkop ("setstr") ; s ["type"] = SF_STR_TITLE ; s ["len"] = (long long) g.rng.range (1, 40) ; s ["stream"] = (long long) g.rng.below (1000) ; ops.push (s) ; }
 	}
 	int B = block_frames (f, ch, rate) ;
-	{ J w = mkop ("write") ; w ["T"] = stype_name (T) ; w ["fr"] = 1 ; w ["n"] = (long long) g.pick_frames (B, ch, 1000 / ch + 2) ; ops.push (w) ; }
-	if (g.rng.chance (0.3)) { J c = mkop ("setchunk") ; c ["id"] = "late" ; c ["len"] = (long long) g.rng.range (0, 100) ; c ["stream"] = 77 ; ops.push (c) ; }
-	if (g.rng.chance (0.5)) { J w = mkop ("write") ; w ["T"] = stype_name (T) ; w ["n"] = (long long) g.pick_frames (B, ch, 500 / ch + 2) ; ops.push (w) ; }
+	// a fifth of the sample-granular plans hand the audio over with sf_write_raw only (the library must know just as well that data has been written)
+	bool rawonly = f.sample_granular () && !f.lossy && B == 1 && g.rng.chance (0.2) ;
+	{ J w = mkop ("write") ; w ["T"] = rawonly ? "raw" : stype_name (T) ; w ["fr"] = 1 ; w ["n"] = (long long) g.pick_frames (B, ch, 1000 / ch + 2) ; ops.push (w) ; }
+	if (g.rng.chance (rawonly ? 0.7 : 0.3)) { J c = mkop ("setchunk") ; c ["id"] = "late" ; c ["len"] = (long long) g.rng.range (0, 100) ; c ["stream"] = 77 ; ops.push (c) ; }
+	if (g.rng.chance (0.5)) { J w = mkop ("write") ; w ["T"] = rawonly ? "raw" : stype_name (T) ; w ["n"] = (long long) g.pick_frames (B, ch, 500 / ch + 2) ; ops.push (w) ; }
 	ops.push (mkop ("close")) ;
 	{ J o = mkop ("open") ; o ["mode"] = "r" ; ops.push (o) ; }
 	{ J i = mkop ("iterchunks") ; i ["variant"] = 2 ; ops.push (i) ; }
@@ -373,7 +375,9 @@ static J gen_c18 (uint64_t seed, uint64_t idx)
 	J &cfg = plan ["cfg"] ;
 	cfg ["fmt"] = f.name ; cfg ["ch"] = ch ; cfg ["sr"] = rate ; cfg ["route"] = g.pick_route (f, true) ;
 	cfg ["part"] = part_a ? "peak" : "calc" ;
-	int T = part_a ? (g.rng.chance (0.5) ? T_FLOAT : T_DOUBLE) : (int) g.rng.below (4) ;
+	// PEAK is computed on what the float file stores, whatever type the caller hands in: float, double, and (a third of the plans)
+	// short or int, which a float file stores unscaled by default
+	int T = part_a ? (g.rng.chance (0.34) ? (g.rng.chance (0.5) ? T_SHORT : T_INT) : g.rng.chance (0.5) ? T_FLOAT : T_DOUBLE) : (int) g.rng.below (4) ;
 	cfg ["T"] = stype_name (T) ;
 	DataDesc d ; d.cls = part_a ? g.rng.pick<const char *> ({ "ties", "ties", "noise", "sine", "pm1_edges", "zeros", "ramp" }) : (g.rng.chance (0.5) ? "noise" : "sine") ; d.stream = (int64_t) g.rng.below (100000) ;
 	cfg ["data"] = data_desc_to (d) ;
@@ -384,7 +388,8 @@ static J gen_c18 (uint64_t seed, uint64_t idx)
 	int nw = (int) g.rng.range (1, 8) ; int64_t N = 0 ;
 	for (int k = 0 ; k < nw ; k++)
 	{	J w = mkop ("write") ; w ["T"] = stype_name (part_a && g.rng.chance (0.2) ? (T == T_FLOAT ? T_DOUBLE : T_FLOAT) : T) ; if (g.rng.chance (0.5)) w ["fr"] = 1 ;
-		int64_t n = g.pick_frames (B, ch, 4000 / ch + 2) ; w ["n"] = (long long) n ; N += n ; ops.push (w) ;
+		int64_t n = g.pick_frames (B, ch, (g.rng.chance (0.25) ? 14000 : 4000) / ch + 2) ;		// some single calls span several staging buffers
+		w ["n"] = (long long) n ; N += n ; ops.push (w) ;
 		if (part_a && has_header (f) && g.rng.chance (0.1)) { J c = mkop ("cmd") ; c ["id"] = "update_header" ; ops.push (c) ; }
 	}
 	ops.push (mkop ("close")) ;
@@ -474,7 +479,10 @@ static Verdict check_c18 (const J &plan)
 			for (int64_t i = 0 ; i < n * ch ; i++)
 			{	uint64_t b = gen_bits (key, item + i, T, d, 0) ;
 				double x ;
-				if (T == T_FLOAT) { uint32_t u = (uint32_t) b ; float fl ; memcpy (&fl, &u, 4) ; x = fl ; } else { memcpy (&x, &b, 8) ; }
+				if (T == T_FLOAT) { uint32_t u = (uint32_t) b ; float fl ; memcpy (&fl, &u, 4) ; x = fl ; }
+				else if (T == T_SHORT) x = (double) (int16_t) (uint16_t) b ;
+				else if (T == T_INT) x = (double) (int32_t) (uint32_t) b ;
+				else { memcpy (&x, &b, 8) ; }
 				if (f->is_float) x = (double) (float) x ;		// what a FLOAT file stores
 				double a = fabs (x) ; int c = (int) (i % ch) ;
 				if (a > mx [c]) { mx [c] = a ; at [c] = frame + i / ch ; } else if (a == mx [c] && a > 0) ties ++ ;
